@@ -300,6 +300,19 @@ func init() {
 		}
 		return nil
 	})
+	z("AllocReset", func(e *Engine, fr *frame, a []Value) Value {
+		e.allocLog = e.allocLog[:0]
+		return nil
+	})
+	z("AllocMax", func(e *Engine, fr *frame, a []Value) Value {
+		m := int64(0)
+		for _, x := range e.allocLog {
+			if x > m {
+				m = x
+			}
+		}
+		return e.goInt(int(m))
+	})
 	z("SameObject", func(e *Engine, fr *frame, a []Value) Value {
 		x, _ := a[0].(iface)
 		y, _ := a[1].(iface)
